@@ -1,6 +1,7 @@
 package main
 
 import (
+	"encoding/json"
 	"flag"
 	"fmt"
 	"os"
@@ -173,5 +174,18 @@ func contractsCmd(args []string) {
 			}
 		}
 		fmt.Println("  dropped:", r.Dropped, "kept:", r.Kept, "notes:", r.Notes)
+	}
+}
+
+func init() {
+	extraCmds["readcut-baseline"] = func(args []string) {
+		fails, err := runReadCut()
+		if err != nil {
+			fmt.Println(err)
+			os.Exit(2)
+		}
+		b, _ := json.MarshalIndent(fails, "", " ")
+		_ = os.WriteFile(verifDir+"/baseline/C02.readcut.json", b, 0o644)
+		fmt.Println("recorded", len(fails), "inputs that fail on the pinned tree")
 	}
 }
